@@ -636,10 +636,137 @@ theorem bnd_group (L : Option Nat) (B0 k : Nat) (eq : P2) (cur : List V) (flushe
             · right; left; exact ⟨_, (eq, c :: cs, false), q, rfl, hp.1⟩
             · right; left; exact ⟨_, (eq, c :: cs, false), q, rfl, hp.1⟩
 
+theorem zip_key (L : Option Nat) (B : Nat) : ∀ (todo pulled : List It) (acc : List V) (bad : Bool),
+    (∀ t ∈ todo, Bnd L B t) →
+    next L (todo.length * (B + 1) + 1) (.zip todo pulled acc bad) ≠ .outOfFuel := by
+  intro todo
+  induction todo with
+  | nil => intro pulled acc bad _; rw [next, step]; simp
+  | cons it rest ih =>
+    intro pulled acc bad hall
+    have hit : Bnd L B it := hall it (by simp)
+    obtain ⟨j, it', hj, hk, hst⟩ := normal_form L B it (bnd_next hit)
+    have hfuel : (it :: rest).length * (B + 1) + 1 = j + ((B - j + (rest.length * (B + 1) + 1)) + 1) := by
+      rw [List.length_cons, Nat.succ_mul rest.length (B + 1)]; omega
+    rw [hfuel]
+    apply skip_congr' L (fun c => It.zip (c :: rest) pulled acc bad)
+      (fun t s hs => Or.inl (by rw [step]; simp [hs])) j it it' hk
+    rw [next, step]
+    rcases hst with hd | ⟨x, s, hy⟩
+    · simp [hd]
+    · simp only [hy]
+      have hrest := ih (s :: pulled)
+      cases x with
+      | viol => simp
+      | err =>
+        cases rest with
+        | nil => simp
+        | cons r rs =>
+          dsimp only
+          exact next_mono' (hrest acc true (fun t ht => hall t (by simp [List.mem_cons] at ht ⊢; exact Or.inr ht))) (by omega)
+      | val v =>
+        cases rest with
+        | nil => simp
+        | cons r rs =>
+          dsimp only
+          exact next_mono' (hrest (v :: acc) bad (fun t ht => hall t (by simp [List.mem_cons] at ht ⊢; exact Or.inr ht))) (by omega)
+
+theorem bnd_zip (L : Option Nat) (B : Nat) (todo pulled : List It) (acc : List V) (bad : Bool)
+    (hall : ∀ t, t ∈ todo ∨ t ∈ pulled → Bnd L B t) :
+    Bnd L ((todo.length + pulled.length) * (B + 1)) (.zip todo pulled acc bad) := by
+  refine bnd_coind (fun t => ∃ td pl ac bd, t = It.zip td pl ac bd ∧ (∀ u, u ∈ td ∨ u ∈ pl → Bnd L B u) ∧
+      td.length + pl.length = todo.length + pulled.length) ?_ ?_ _ ⟨todo, pulled, acc, bad, rfl, hall, rfl⟩
+  · rintro t ⟨td, pl, ac, bd, rfl, h, hl⟩
+    refine next_mono' (zip_key L B td pl ac bd (fun u hu => h u (Or.inl hu))) ?_
+    have : td.length * (B + 1) ≤ (todo.length + pulled.length) * (B + 1) := Nat.mul_le_mul_right _ (by omega)
+    omega
+  · rintro t ⟨td, pl, ac, bd, rfl, h, hl⟩
+    cases td with
+    | nil =>
+      rw [step]
+      refine ⟨pl.reverse, [], [], false, rfl, ?_, by simpa using hl⟩
+      intro u hu; simp only [List.mem_reverse, List.not_mem_nil, or_false] at hu; exact h u (Or.inr hu)
+    | cons it rest =>
+      rw [step]
+      cases hs : step L it with
+      | done => trivial
+      | skip s =>
+        refine ⟨s :: rest, pl, ac, bd, rfl, ?_, by simpa using hl⟩
+        intro u hu
+        rcases hu with hu | hu
+        · rcases List.mem_cons.mp hu with rfl | hu
+          · exact bnd_skip (h it (Or.inl (by simp))) hs
+          · exact h u (Or.inl (by simp [hu]))
+        · exact h u (Or.inr hu)
+      | «yield» x s =>
+        have hsB : Bnd L B s := bnd_yield (h it (Or.inl (by simp))) hs
+        have hmem : ∀ u, u ∈ s :: rest ∨ u ∈ pl → Bnd L B u := by
+          intro u hu
+          rcases hu with hu | hu
+          · rcases List.mem_cons.mp hu with rfl | hu
+            · exact hsB
+            · exact h u (Or.inl (by simp [hu]))
+          · exact h u (Or.inr hu)
+        cases x with
+        | viol =>
+          refine ⟨pl.reverse ++ s :: rest, [], [], false, rfl, ?_, by simp at hl ⊢; omega⟩
+          intro u hu
+          simp only [List.mem_append, List.mem_reverse, List.not_mem_nil, or_false] at hu
+          rcases hu with hu | hu
+          · exact hmem u (Or.inr hu)
+          · exact hmem u (Or.inl hu)
+        | err =>
+          cases rest with
+          | nil =>
+            refine ⟨(s :: pl).reverse, [], [], false, rfl, ?_, by simp at hl ⊢; omega⟩
+            intro u hu
+            simp only [List.mem_reverse, List.not_mem_nil, or_false, List.mem_cons] at hu
+            rcases hu with rfl | hu
+            · exact hsB
+            · exact hmem u (Or.inr hu)
+          | cons r rs =>
+            refine ⟨r :: rs, s :: pl, ac, true, rfl, ?_, by simp at hl ⊢; omega⟩
+            intro u hu
+            rcases hu with hu | hu
+            · exact hmem u (Or.inl (by simp [List.mem_cons] at hu ⊢; exact Or.inr hu))
+            · rcases List.mem_cons.mp hu with rfl | hu
+              · exact hsB
+              · exact hmem u (Or.inr hu)
+        | val v =>
+          cases rest with
+          | nil =>
+            refine ⟨(s :: pl).reverse, [], [], false, rfl, ?_, by simp at hl ⊢; omega⟩
+            intro u hu
+            simp only [List.mem_reverse, List.not_mem_nil, or_false, List.mem_cons] at hu
+            rcases hu with rfl | hu
+            · exact hsB
+            · exact hmem u (Or.inr hu)
+          | cons r rs =>
+            refine ⟨r :: rs, s :: pl, v :: ac, bd, rfl, ?_, by simp at hl ⊢; omega⟩
+            intro u hu
+            rcases hu with hu | hu
+            · exact hmem u (Or.inl (by simp [List.mem_cons] at hu ⊢; exact Or.inr hu))
+            · rcases List.mem_cons.mp hu with rfl | hu
+              · exact hsB
+              · exact hmem u (Or.inr hu)
+
+theorem mem_startAll (L : Option Nat) : ∀ (ps : List G) (t : It), t ∈ G.startAll L ps → ∃ g ∈ ps, t = g.start L
+  | [], t, h => by simp [G.startAll] at h
+  | g :: gs, t, h => by
+    simp only [G.startAll, List.mem_cons] at h
+    rcases h with rfl | h
+    · exact ⟨g, by simp, rfl⟩
+    · obtain ⟨g', hg', e⟩ := mem_startAll L gs t h
+      exact ⟨g', by simp [hg'], e⟩
+
+theorem length_startAll (L : Option Nat) : ∀ (ps : List G), (G.startAll L ps).length = ps.length
+  | [] => rfl
+  | g :: gs => by simp [G.startAll, length_startAll L gs]
+
 /-! ### the bound of a whole generator -/
 
 mutual
-/-- generators without `zip` (whose rounds are bounded by the number of parts; not proved here) -/
+/-- every adaptor of the model is covered (kept as a predicate so that the statement names its scope) -/
 def G.nest : G → Bool
   | .fromArr _ => true
   | .fromCount _ => true
@@ -655,7 +782,7 @@ def G.nest : G → Bool
   | .withCount g _ => g.nest
   | .group g _ => g.nest
   | .windows g _ => g.nest
-  | .zip _ => false
+  | .zip parts => G.nestAll parts
 def G.nestAll : List G → Bool
   | [] => true
   | g :: gs => g.nest && G.nestAll gs
@@ -679,7 +806,7 @@ def G.work (l : Nat) : G → Nat
   | .withCount g _ => g.work l
   | .group g _ => (l + 2) * (g.work l + 1)
   | .windows g _ => (l + 2) * (g.work l + 1)
-  | .zip _ => 0
+  | .zip parts => parts.length * (G.workMax l parts + 1)
 def G.workMax (l : Nat) : List G → Nat
   | [] => 0
   | g :: gs => max (g.work l) (G.workMax l gs)
@@ -724,7 +851,16 @@ theorem work_bounded (l : Nat) : ∀ (g : G), g.nest = true → Bnd (some l) (g.
   | .windows g n, h => by
     rw [G.start, G.work]
     exact bnd_windows _ _ (l + 1) n [] _ _ (ofLimit_some l).1 (ofLimit_some l).2 (work_bounded l g (by simpa [G.nest] using h))
-  | .zip ps, h => by simp [G.nest] at h
+  | .zip ps, h => by
+    rw [G.start, G.work]
+    have hall := work_bounded_all l ps (by simpa [G.nest] using h)
+    have := bnd_zip (some l) (G.workMax l ps) (G.startAll (some l) ps) [] [] false (by
+      intro t ht
+      rcases ht with ht | ht
+      · obtain ⟨g, hg, rfl⟩ := mem_startAll _ ps t ht
+        exact hall g hg
+      · simp at ht)
+    simpa [length_startAll] using this
 theorem work_bounded_all (l : Nat) : ∀ (gs : List G), G.nestAll gs = true →
     ∀ g ∈ gs, Bnd (some l) (G.workMax l gs) (g.start (some l))
   | [], _ => by intro g hg; simp at hg
@@ -736,5 +872,32 @@ theorem work_bounded_all (l : Nat) : ∀ (gs : List G), G.nestAll gs = true →
     · rw [heq]; exact bnd_mono (work_bounded l g0 h.1) (Nat.le_max_left _ _)
     · exact bnd_mono (work_bounded_all l gs h.2 g hg') (Nat.le_max_right _ _)
 end
+
+
+mutual
+theorem nest_true : ∀ (g : G), g.nest = true
+  | .fromArr _ => rfl
+  | .fromCount _ => rfl
+  | .succUntil _ _ => rfl
+  | .map g _ => by rw [G.nest]; exact nest_true g
+  | .filter g _ => by rw [G.nest]; exact nest_true g
+  | .chain ps => by rw [G.nest]; exact nestAll_true ps
+  | .slice g _ _ => by rw [G.nest]; exact nest_true g
+  | .repeat_ g => by rw [G.nest]; exact nest_true g
+  | .takeWhile g _ => by rw [G.nest]; exact nest_true g
+  | .skipUntil g _ => by rw [G.nest]; exact nest_true g
+  | .aggregate g _ _ => by rw [G.nest]; exact nest_true g
+  | .withCount g _ => by rw [G.nest]; exact nest_true g
+  | .group g _ => by rw [G.nest]; exact nest_true g
+  | .windows g _ => by rw [G.nest]; exact nest_true g
+  | .zip ps => by rw [G.nest]; exact nestAll_true ps
+theorem nestAll_true : ∀ (gs : List G), G.nestAll gs = true
+  | [] => rfl
+  | g :: gs => by rw [G.nestAll, nest_true g, nestAll_true gs]; rfl
+end
+
+/-- the general bound, for every generator of the model -/
+theorem work_bounded_any (l : Nat) (g : G) : Bnd (some l) (g.work l) (g.start (some l)) :=
+  work_bounded l g (nest_true g)
 
 end XrayModel.Gen
